@@ -55,3 +55,21 @@ def run(ctx):
     CH = 4000
     for i in range(0, len(traces), CH):
         vlib.check_traces(ctx, traces[i:i + CH], "b%d" % (i // CH))
+    # a second timing configuration: Timeout shorter than ConcurrencyDelay
+    if not ctx.replay:
+        ctx.mc("Dial", "MCDial_b.cfg", timeout=1800)
+        rnd2 = random.Random(ctx.seed + 1)
+        sub = [s for s in scens if s["n"] >= 1]
+        rnd2.shuffle(sub)
+        sub = sub[:400 if ctx.quick else 3000]
+        f_in2, f_out2 = ctx.path("scen-b.ndjson"), ctx.path("traces-b.ndjson")
+        vlib.write_ndjson(f_in2, sub)
+        rc, out = ctx.go_test("^TestDialScenarios$", env={"VH_IN": f_in2, "VH_OUT": f_out2, "VH_DELAY": 4, "VH_TIMEOUT": 2, "VH_PROCS": "16"}, timeout=1500)
+        tb = vlib.split_traces(vlib.read_ndjson(f_out2))
+        if len(tb) < len(sub):
+            if rc == 0:
+                raise vlib.Inconclusive("harness produced %d of %d traces (timing b)" % (len(tb), len(sub)))
+            ctx.violation("harness-death-b", "Dial harness died (timing configuration b): " + out[-600:], {"output": out[-3000:]})
+        for tr in tb:
+            ctx.case("b:" + vlib.fp(tr[0]["scen"]))
+        vlib.check_traces(ctx, tb, "tb", module="TraceDial", cfg="TraceDial_b.cfg", specname="Dial.tla (Delay=4, Timeout=2)")
